@@ -472,6 +472,14 @@ func (x *affExec) call(c *ast.CallExpr, st *affState) aval {
 		if or := fn.Origin(); or != nil {
 			fn = or
 		}
+		// a two-argument helper of the module that returns the larger / smaller of its parameters is max / min
+		if len(c.Args) == 2 && x.m.Decl[fn] != nil {
+			if mk := ssaMinMaxHelper(x.m.Prog.FuncValue(fn)); mk != "" {
+				as := []string{avalString(x.eval(c.Args[0], st)), avalString(x.eval(c.Args[1], st))}
+				sort.Strings(as)
+				return linAtom(mk + "(" + strings.Join(as, ", ") + ")")
+			}
+		}
 		fd := x.m.Decl[fn]
 		if fd != nil && fd.Body != nil && x.depth < 3 && !x.stack[fn] && x.inlinable(fn) {
 			p := x.m.DeclPkg[fn]
@@ -615,6 +623,9 @@ func (x *affExec) inlineStmtCall(c *ast.CallExpr, st *affState) ([]*affState, bo
 	fd := x.m.Decl[fn]
 	if fd == nil || fd.Body == nil || x.depth >= 3 || x.stack[fn] || !x.inlinable(fn) {
 		return nil, false
+	}
+	if len(c.Args) == 2 && ssaMinMaxHelper(x.m.Prog.FuncValue(fn)) != "" {
+		return nil, false // evaluated as max / min
 	}
 	p := x.m.DeclPkg[fn]
 	sub := &affExec{m: x.m, info: p.TypesInfo, depth: x.depth + 1, loops: x.loops, curLoop: x.curLoop, fnName: x.fnName, undec: x.undec, stack: map[*types.Func]bool{fn: true}, idx: x.idx, rootPkg: x.rootPkg, escaped: escapedVars(p.TypesInfo, fd)}
